@@ -237,6 +237,25 @@ Theorem C09_delete_skip_linked_refuted :
 Proof. exact delete_skip_linked_leaves_chain. Qed.
 Print Assumptions C09_delete_skip_linked_refuted.
 
+(* audit F-A: before the repair gcIndex kept a manifest whose subject is a (never stored)
+   layer that the rebuilt graph knows by reference *)
+Theorem C09_gc_blob_subject_refuted :
+  blobs (fst (step succ_w subject_w manifest_w cfg_noSubjM false (run_w cfg_noSubjM subjm_ops) OGC)) = [11; 10; 0] /\
+  blobs (fst (step succ_w subject_w manifest_w cfg_fixed false (run_w cfg_fixed subjm_ops) OGC)) = [10; 0] /\
+  manifest_w 9 = false /\ subject_w 11 = Some 9.
+Proof. exact gc_blob_subject_keeps_garbage. Qed.
+Print Assumptions C09_gc_blob_subject_refuted.
+
+(* audit F-C: before the repair a surviving index that lists a referrer and also names it as
+   its subject did not hold it *)
+Theorem C09_delete_subject_and_entry_refuted :
+  let st := run_w cfg_fixed [OPush 0; OPush 1; OPush 2; OPush 12; OTag 12 0] in
+  blobs (fst (delete succ_w subject_w manifest_w cfg_noEntry ord_id st 1)) = [12] /\
+  blobs (fst (delete succ_w subject_w manifest_w cfg_fixed ord_id st 1)) = [12; 2; 0] /\
+  In 2 (entries succ_w subject_w 12).
+Proof. exact delete_subject_and_entry. Qed.
+Print Assumptions C09_delete_subject_and_entry_refuted.
+
 (* ---- the hypotheses are satisfiable on non-trivial instances ---- *)
 Example C09_hyps_satisfiable : acyclic succ_w /\ subject_listed succ_w subject_w.
 Proof. exact hyps_satisfiable. Qed.
